@@ -331,10 +331,14 @@ impl<Aux> Vm<'_, Aux> {
                 .map_err(|_| ExecutionErrorPayload::CallStackOverflow)?;
         }
 
+        let depth = self.runtime_data.call_stack.len() - 2;
         let mut instr_ptr = src as usize;
-        self._run(&mut instr_ptr).map_err(|err| err.payload)?;
-        // pop the trap callframe
-        self.runtime_data.call_stack.pop();
+        let result = self._run(&mut instr_ptr).map_err(|err| err.payload);
+        // pop the trap callframe, and after an error the frames the callee left behind
+        while self.runtime_data.call_stack.len() > depth {
+            self.runtime_data.call_stack.pop();
+        }
+        result?;
         Ok(self.stack_pop())
     }
 
